@@ -1,6 +1,11 @@
 extern crate rustc_version;
 use rustc_version::{version_meta, Channel};
 fn main() {
+    // avl_savefile_verif: verification builds use a nightly-based toolchain but must
+    // check the same (stable) code paths the test suite builds.
+    if std::env::var_os("CARGO_FEATURE_AVL_SAVEFILE_VERIF").is_some() {
+        return;
+    }
     let version = version_meta().unwrap();
     if version.channel == Channel::Nightly {
         println!("cargo:rustc-cfg=feature=\"nightly\"");
